@@ -347,6 +347,76 @@ theorem C11_attach_exposes_layer {s s' : State} (h : Reach s) {l : Nat} (ha : at
   refine ⟨h1, h2, h3, fun c hc => ?_⟩
   rw [cellGet_eq_value hr'.wf h1 (by rw [h4]; exact hc), h3]
 
+/-! ## the clash rule of `add_property_layer`, re-proved against the source on every check
+
+`reservedNames` is built from `Gen/LayersTables.lean`, which the harness rewrites from `cell.py` / `grid.py`
+of the checked tree before every build; the `decide`s below are therefore about the code as it is *now*. -/
+
+/-- The names the model refuses as layer names — what the *source* of `class Cell` (slots, methods,
+    properties, class attributes) and of the dynamic `GridCell` class defines, plus what Python gives every
+    class — are exactly the attributes the running code reports for the grid's cell class
+    (`dir(grid.cell_klass)`, layer descriptors removed): `name ∈ reservedNames` is
+    `hasattr(self.cell_klass, name)`. -/
+theorem C11_reserved_names_are_cell_class_attributes (n : String) :
+    n ∈ reservedNames ↔ n ∈ Gen.cellKlassProbe := by
+  have h1 : reservedNames.all (fun x => decide (x ∈ Gen.cellKlassProbe)) = true := by decide
+  have h2 : Gen.cellKlassProbe.all (fun x => decide (x ∈ reservedNames)) = true := by decide
+  rw [List.all_eq_true] at h1 h2
+  exact ⟨fun h => by simpa using h1 n h, fun h => by simpa using h2 n h⟩
+
+/-- Every name through which a cell takes part in occupancy, emptiness and neighbourhoods (what the model's
+    `place` / `move` / `remove` / `isEmptyCell` stand for: `Cell.add_agent`, `remove_agent`, `agents`, `_agents`,
+    `is_empty`, `is_full`, `capacity`, `coordinate`, `connections`, `neighborhood`, …) is reserved, so no layer
+    can shadow it (defect PL1), while `empty` — the name `Grid.__init__` itself gives its built-in layer — is
+    free. -/
+theorem C11_cell_protocol_names_reserved :
+    (∀ n ∈ ["_agents", "agents", "add_agent", "remove_agent", "is_empty", "is_full", "capacity", "coordinate",
+            "connections", "connect", "disconnect", "neighborhood", "get_neighborhood", "random",
+            "_mesa_properties", "__dict__", "__class__", "__init__"], n ∈ reservedNames) ∧
+    "empty" ∉ reservedNames := by
+  decide
+
+/-- The built-in layer is an ordinary one: a fresh grid *is* the layer-less grid after
+    `create_property_layer("empty", True, bool)`, a call the clash rule lets through. -/
+theorem C11_builtin_empty_is_created_layer (dims : List Nat) (cap : Nat) :
+    create { init .new dims cap with next := 0, nLayers := 0, attached := [] } "empty" 1
+      = (init .new dims cap, .id 0) := by
+  have hfree : "empty" ∉ reservedNames := C11_cell_protocol_names_reserved.2
+  unfold create attachCheck
+  simp only [init, State.named?, List.lookup_nil, Option.isSome_none, ne_eq, not_true_eq_false,
+    if_false, Bool.false_eq_true, hfree, if_true, List.nil_append, Nat.zero_add, Prod.mk.injEq, and_true]
+  congr 1
+  · funext j; simp [upd]
+  · funext j; simp [upd]
+
+/-- After every history on a cell space: a name of the cell class is never attached as a layer — every
+    `add_property_layer` of a layer so named is refused and changes nothing — and, the other way round,
+    whatever is attached is not a name of the cell class, so the cell attribute of that name *is* the layer
+    entry (never the method or property of `Cell`). -/
+theorem C11_layer_never_shadows_cell_attribute {s : State} (h : Reach s) (hi : s.impl = .new) :
+    (∀ n ∈ reservedNames, s.named? n = none ∧
+      ∀ lid, lid < s.nLayers → (s.layers lid).name = n → ∃ w, attach s lid = (s, .err (.value w))) ∧
+    (∀ n l, s.named? n = some l → n ∉ reservedNames ∧
+      ∀ c, inBounds s.dims c = true → cellGet s n c = .val (s.value l c)) := by
+  have hw := h.wf
+  refine ⟨fun n hn => ⟨?_, fun lid hl hname => ?_⟩, fun n l hnl => ⟨hw.att_free hi n l hnl, fun c hc => ?_⟩⟩
+  · cases hx : s.named? n with
+    | none => rfl
+    | some l => exact absurd hn (hw.att_free hi n l hx)
+  · have hchk : ∃ w, attachCheck s (s.layers lid) = some w := by
+      unfold attachCheck
+      simp only [hi, hname]
+      split
+      · exact ⟨_, rfl⟩
+      · split
+        · exact ⟨_, rfl⟩
+        · exact ⟨.clash, rfl⟩
+    obtain ⟨w, hchk⟩ := hchk
+    refine ⟨w, ?_⟩
+    unfold attach State.layer?
+    simp [hl, hchk]
+  · exact cellGet_eq_value hw hnl hc
+
 /-! ## the emptiness layer / mask is actual emptiness -/
 
 /-- After every history in which the user does not himself overwrite, re-point, alias or remove the
@@ -526,5 +596,10 @@ example : cellGet (run (init .new [2, 2] 0) [.create "a" 0, .cellSet "a" [0, 1] 
 example : ((run (init .multi [2, 2] 0) [.place 0 [0, 1], .place 1 [0, 1], .remove 0, .empties, .remove 1, .empties]).2.drop 3)
     = [.emp (some [1, 0, 1, 1]) [true, false, true, true], .ok, .emp (some [1, 1, 1, 1]) [true, true, true, true]] := by
   decide
+
+/-- the clash rule at work on a reachable state: `is_empty` is refused, `a` is attached and read through the cell -/
+example : (run (init .new [2, 2] 0) [.newLayer "is_empty" [2, 2] 0, .attach 1, .create "a" 3, .cellGet "a" [1, 1],
+    .cellGet "is_empty" [1, 1]]).2 = [.id 1, .err (.value .clash), .id 2, .val 3, .err .attr] := by decide
+example : "is_empty" ∈ reservedNames ∧ "a" ∉ reservedNames := by decide
 
 end Mesa.Layers
